@@ -60,7 +60,12 @@ def _parse_via(channel, raw):
             app.request.__init__(env)
             return res_of(app.request.query), ''
         body = raw.encode('latin1')
-        env = base_environ(REQUEST_METHOD='POST', CONTENT_TYPE='application/x-www-form-urlencoded', CONTENT_LENGTH=str(len(body)))
+        # the media type as clients spell it: bare, with a charset parameter (jQuery, axios), other case, white space, or absent
+        spell = ['application/x-www-form-urlencoded', 'application/x-www-form-urlencoded; charset=UTF-8', 'application/x-www-form-urlencoded;charset=utf-8',
+                 'Application/X-WWW-Form-Urlencoded', 'application/x-www-form-urlencoded ; charset=UTF-8', None][(len(raw) + sum(body[:3])) % 6]
+        env = base_environ(REQUEST_METHOD='POST', CONTENT_LENGTH=str(len(body)))
+        if spell:
+            env['CONTENT_TYPE'] = spell
         env['wsgi.input'] = io.BytesIO(body)
         app.request.__init__(env)
         if channel == 'query-after-rewrite':
